@@ -10,6 +10,7 @@ import (
 	"sort"
 	"strings"
 	"text/template/parse"
+	"unicode"
 
 	"fv/internal/core"
 
@@ -60,6 +61,8 @@ type tmplInfo struct {
 type helperClass struct {
 	constOnly, identSan, dqEscape, nlSafe bool
 	twoHex                                bool // percent-encodes with exactly two hex digits
+	splitsUTF8                            bool // encodes some bytes >= 0x80 and leaves others
+	byteExact                             bool // classified by enumerating all byte values
 }
 
 func runC20(c *core.Ctx) {
@@ -146,6 +149,9 @@ func runC20(c *core.Ctx) {
 		if !h.dqEscape {
 			continue
 		}
+		if h.splitsUTF8 {
+			c.Report("tmpl.hex", n+"|utf8", helperLits[n].Pos(), fmt.Sprintf("the escaping helper %q percent-encodes some of the bytes 0x80-0xFF and leaves the others: a multi-byte character comes out half encoded (`Ü` as \\xc3%%9C) and the parser rejects the generated VCL (utf-8 escape has invalid leading byte)", n))
+		}
 		if h.twoHex {
 			c.Discharge("tmpl.hex", n, helperLits[n].Pos(), "percent-encodes each byte with exactly two hex digits")
 		} else {
@@ -154,7 +160,7 @@ func runC20(c *core.Ctx) {
 	}
 	var hdesc []string
 	for n, h := range helpers {
-		hdesc = append(hdesc, fmt.Sprintf("%s{const:%v ident:%v dq:%v nl:%v}", n, h.constOnly, h.identSan, h.dqEscape, h.nlSafe))
+		hdesc = append(hdesc, fmt.Sprintf("%s{const:%v ident:%v dq:%v nl:%v bytes-enumerated:%v}", n, h.constOnly, h.identSan, h.dqEscape, h.nlSafe, h.byteExact))
 	}
 	sort.Strings(hdesc)
 	c.Info("helpers: %s", strings.Join(hdesc, " "))
@@ -405,8 +411,17 @@ func classifyHelper(prog *core.Program, fn *ssa.Function) helperClass {
 	// byte itself (anything but a comparison, a formatting call or a nibble extraction) are enumerated over all 256
 	// values, whatever the shape of the tests
 	if raw, ok := byteLoopRaw(fn); ok {
+		hc.byteExact = true
 		hc.dqEscape = !raw['"'] && !raw['%']
 		hc.nlSafe = !raw['\n']
+		// the parser decodes %XX with XX >= 0x80 as the start of a UTF-8 sequence: the bytes of a multi-byte character
+		// must be treated alike (all left as they are, or all encoded); a helper that encodes the continuation bytes
+		// 0x80-0x9F only turns `Ü` into `\xc3%9C`, which the parser rejects
+		for k := 0x81; k < 0x100; k++ {
+			if raw[k] != raw[0x80] {
+				hc.splitsUTF8 = true
+			}
+		}
 	}
 	// exactly two hex digits per encoded byte: fmt verb %02X / %02x after a literal percent sign, a hex table indexed
 	// by both nibbles, or encoding/hex
@@ -1237,20 +1252,30 @@ func byteLoopRaw(fn *ssa.Function) (raw [256]bool, ok bool) {
 	var c ssa.Value
 	for _, b := range fn.Blocks {
 		for _, in := range b.Instrs {
-			lk, isLk := in.(*ssa.Lookup)
-			if !isLk || lk.CommaOk {
+			// v[i] on a string: ssa.Index (newer go/ssa) or ssa.Lookup
+			var base ssa.Value
+			var read ssa.Value
+			switch t := in.(type) {
+			case *ssa.Lookup:
+				if !t.CommaOk {
+					base, read = t.X, t
+				}
+			case *ssa.Index:
+				base, read = t.X, t
+			}
+			if base == nil {
 				continue
 			}
-			if _, isParam := lk.X.(*ssa.Parameter); !isParam {
+			if _, isParam := base.(*ssa.Parameter); !isParam {
 				continue
 			}
-			if bt, isB := lk.X.Type().Underlying().(*types.Basic); !isB || bt.Info()&types.IsString == 0 {
+			if bt, isB := base.Type().Underlying().(*types.Basic); !isB || bt.Info()&types.IsString == 0 {
 				continue
 			}
 			if c != nil {
 				return raw, false
 			}
-			c = lk
+			c = read
 		}
 	}
 	if c == nil {
@@ -1295,6 +1320,12 @@ func byteLoopRaw(fn *ssa.Function) (raw [256]bool, ok bool) {
 			if cal := t.Common().StaticCallee(); cal != nil && cal.Pkg != nil && cal.Pkg.Pkg.Path() == "fmt" {
 				return false
 			}
+			// a predicate on the byte (unicode.IsControl …) is a test, not a copy
+			if res := t.Common().Signature().Results(); res.Len() == 1 {
+				if bt, isB := res.At(0).Type().Underlying().(*types.Basic); isB && bt.Kind() == types.Bool {
+					return false
+				}
+			}
 		}
 		return true
 	}
@@ -1302,10 +1333,16 @@ func byteLoopRaw(fn *ssa.Function) (raw [256]bool, ok bool) {
 	for k := 0; k < 256; k++ {
 		phiEnv := map[*ssa.Phi]int{}
 		var eval func(v ssa.Value) (int64, bool)
+		evaluating := map[ssa.Value]bool{}
 		eval = func(v ssa.Value) (int64, bool) {
 			if v == c {
 				return int64(k), true
 			}
+			if evaluating[v] {
+				return 0, false // a value carried round the loop (the index)
+			}
+			evaluating[v] = true
+			defer delete(evaluating, v)
 			switch t := v.(type) {
 			case *ssa.Const:
 				if t.Value != nil && t.Value.Kind() == constant.Bool {
@@ -1330,6 +1367,39 @@ func byteLoopRaw(fn *ssa.Function) (raw [256]bool, ok bool) {
 			case *ssa.Phi:
 				if e, has := phiEnv[t]; has {
 					return eval(t.Edges[e])
+				}
+			case *ssa.Call:
+				// the character classes of package unicode, applied to the enumerated value
+				if cal := t.Common().StaticCallee(); cal != nil && cal.Pkg != nil && cal.Pkg.Pkg.Path() == "unicode" && len(t.Common().Args) == 1 {
+					if x, ok := eval(t.Common().Args[0]); ok {
+						var f func(rune) bool
+						switch cal.Name() {
+						case "IsControl":
+							f = unicode.IsControl
+						case "IsSpace":
+							f = unicode.IsSpace
+						case "IsPrint":
+							f = unicode.IsPrint
+						case "IsGraphic":
+							f = unicode.IsGraphic
+						case "IsLetter":
+							f = unicode.IsLetter
+						case "IsDigit":
+							f = unicode.IsDigit
+						case "IsPunct":
+							f = unicode.IsPunct
+						case "IsUpper":
+							f = unicode.IsUpper
+						case "IsLower":
+							f = unicode.IsLower
+						}
+						if f != nil {
+							if f(rune(x)) {
+								return 1, true
+							}
+							return 0, true
+						}
+					}
 				}
 			case *ssa.BinOp:
 				x, okx := eval(t.X)
@@ -1378,7 +1448,7 @@ func byteLoopRaw(fn *ssa.Function) (raw [256]bool, ok bool) {
 				undecided = true
 				return
 			}
-			if b == c.(*ssa.Lookup).Block() && from >= 0 {
+			if b == c.(ssa.Instruction).Block() && from >= 0 {
 				return // next byte
 			}
 			if onPath[b] {
@@ -1400,7 +1470,7 @@ func byteLoopRaw(fn *ssa.Function) (raw [256]bool, ok bool) {
 					delete(phiEnv, ph)
 				}
 			}()
-			after := b != c.(*ssa.Lookup).Block()
+			after := b != c.(ssa.Instruction).Block()
 			for _, in := range b.Instrs {
 				if in == c.(ssa.Instruction) {
 					after = true
@@ -1442,7 +1512,7 @@ func byteLoopRaw(fn *ssa.Function) (raw [256]bool, ok bool) {
 				walk(s, predIdx(s))
 			}
 		}
-		walk(c.(*ssa.Lookup).Block(), -1)
+		walk(c.(ssa.Instruction).Block(), -1)
 	}
 	if undecided {
 		return raw, false
